@@ -109,8 +109,11 @@ class FakeCryptoPair:
         self.send.valid = False
         self.recv.valid = False
 
+    sender_initial_cid = None  # the connection ID the genuine peer derives its Initial keys from
+
     def setup_initial(self, cid, is_client, version):
         self.send.valid = self.recv.valid = True
+        self.initial_cid = cid
 
     def encrypt_packet(self, plain_header, plain_payload, packet_number):
         return plain_header + plain_payload + bytes(16)
@@ -123,7 +126,12 @@ class FakeCryptoPair:
         if not self.recv.valid:
             raise KeyUnavailableError("Decryption key is not available")
         n = sx.sym_len(packet)
-        if CryptoErrorChoice.fail_next or sx.truth(n < encrypted_offset + 2 + 16):
+        wrong_key = False
+        if FakeCryptoPair.sender_initial_cid is not None and getattr(self, "initial_cid", None) is not None:
+            # Initial keys are a function of the client's first destination CID: they only open
+            # the genuine peer's packets when derived from the same CID
+            wrong_key = not (self.initial_cid == FakeCryptoPair.sender_initial_cid)
+        if wrong_key or CryptoErrorChoice.fail_next or sx.truth(n < encrypted_offset + 2 + 16):
             CryptoErrorChoice.fail_next = False
             raise CryptoError("Payload decryption failed")
         plain_header = packet[: encrypted_offset + 2]
